@@ -405,20 +405,28 @@ def run_nonpd(c):
                         V("nonpd|%s|raise=False|%s|non-finite" % (solver, kind), where)
                         continue
                     E0, E = S.energy(A, j, x0), S.energy(A, j, x)
-                    if E > E0 + sE:
-                        V("nonpd|%s|raise=False|%s|%s|energy-above-start" % (solver, kind, x0tag),
-                          "%s -> x=%s with E=%.6g > E(x0)=%.6g (info=%d)" % (where, np.round(x, 6).tolist(), E, E0, r["info"]))
+                    up = E > E0 + sE
                     if first and not zero:
+                        # one root cause (the fallback step), one key; the manifestations go into the text
                         g0 = A @ x0 - j
                         step = x - x0
+                        wrong = []
+                        if up:
+                            wrong.append("E(x)=%.6g > E(x0)=%.6g" % (E, E0))
                         if np.linalg.norm(step) <= 1e-14 * (1 + np.linalg.norm(x0)):
-                            V("nonpd|%s|raise=False|%s|%s|no-step" % (solver, kind, x0tag), "%s -> x = x0 (info=%d)" % (where, r["info"]))
+                            wrong.append("no step taken (x = x0)")
                         else:
                             t = -np.vdot(g0, step) / np.vdot(g0, g0).real
                             if not (abs(t.imag) <= 1e-9 * abs(t) and t.real > 0 and
                                     np.linalg.norm(step + t.real * g0) <= 1e-8 * np.linalg.norm(step)):
-                                V("nonpd|%s|raise=False|%s|%s|step-not-along-negative-gradient" % (solver, kind, x0tag),
-                                  "%s -> x - x0 = %s, -gradient = %s" % (where, np.round(step, 6).tolist(), np.round(-g0, 6).tolist()))
+                                wrong.append("x - x0 = %s is not a positive multiple of -gradient = %s"
+                                             % (np.round(step, 6).tolist(), np.round(-g0, 6).tolist()))
+                        if wrong:
+                            V("nonpd|%s|raise=False|%s|%s|not-a-steepest-descent-step" % (solver, kind, x0tag),
+                              "%s -> x=%s, info=%d: %s" % (where, np.round(x, 6).tolist(), r["info"], "; ".join(wrong)))
+                    elif up:
+                        V("nonpd|%s|raise=False|%s|%s|energy-above-start" % (solver, kind, x0tag),
+                          "%s -> x=%s with E=%.6g > E(x0)=%.6g (info=%d)" % (where, np.round(x, 6).tolist(), E, E0, r["info"]))
     if found:
         keys = sorted(found)
         return bad("%s%s" % (found[keys[0]], "" if len(keys) == 1 else "  [+%d other kinds, see detail]" % (len(keys) - 1)),
